@@ -5,6 +5,7 @@
    Proofs/Chk09.v). *)
 From Coq Require Import ZArith NArith List Bool.
 From FR Require Import Dec Types Bank Match Step Genesis Model Spec Checkers.
+From FR.Proofs Require ChkGen16.
 From FR.Proofs Require Import InvDefs Chk09 Chk16.
 From FR.Properties Require C09_release C16.
 Import ListNotations.
@@ -13,6 +14,13 @@ Open Scope Z_scope.
 Theorem C16_checker : forall s o, Inv s -> oracle_ok s o -> c16_ok (model_trans s o) = true.
 Proof. exact c16_ok_model. Qed.
 Print Assumptions C16_checker.
+
+(* the checker the driver evaluates for C16: c16_ok and c16_genesis (the matched flags of the bids and the released
+   flags of the instalments are after an export / import exactly what they were before) *)
+Theorem C16_all_checker : forall s o, Inv s -> oracle_ok s o -> c16_all (model_trans s o) = true.
+Proof. exact ChkGen16.c16_all_model. Qed.
+Print Assumptions C16_all_checker.
+
 
 (* the two conjuncts separately, for the transition taken from any state with an empty transfer log *)
 Theorem C16_checker_settlement : forall s o, Inv s -> st_xfers s = [] -> c16_settle_part (trans_of s o) = true.
